@@ -32,8 +32,9 @@ META = dict(
 NAMES = "abcde"
 
 
-def _specs(n, edges, order=None, extra_parent=None):
-    """edges: set of (i, j) meaning j depends on i"""
+def _specs(n, edges, order=None, extra_parent=None, const_roots=False):
+    """edges: set of (i, j) meaning j depends on i. const_roots: definitions without dependencies are constant *linked*
+    variables (a function of nothing) instead of independent variables - both kinds occur in definitions"""
     specs = {}
     idx = list(range(n)) if order is None else order
     for j in idx:
@@ -44,6 +45,8 @@ def _specs(n, edges, order=None, extra_parent=None):
             if order is not None:
                 parents = list(reversed(parents))
             specs[NAMES[j]] = LinkedVariable(NamedInputFunction(f=lambda *a: None, parameters=tuple(parents)))
+        elif const_roots:
+            specs[NAMES[j]] = LinkedVariable(NamedInputFunction(f=lambda: None, parameters=()))
         else:
             specs[NAMES[j]] = DataVariable()
     return specs
@@ -60,14 +63,14 @@ def _closure(n, edges):
     return reach
 
 
-def check_graph(n, edges, extra_parent=None):
+def check_graph(n, edges, extra_parent=None, const_roots=False):
     """returns None if the real construction agrees with the specification, else a description"""
     reach = _closure(n, edges)
     cyclic = any(reach[i][i] for i in range(n))
     isolated = any(not any((i, j) in edges for j in range(n)) and not any((j, i) in edges for j in range(n)) for i in range(n))
     bad_ref = extra_parent is not None
     try:
-        dag = VariablesDAG.from_dict(_specs(n, edges, extra_parent=extra_parent))
+        dag = VariablesDAG.from_dict(_specs(n, edges, extra_parent=extra_parent, const_roots=const_roots))
     except (LeaspyInputError, ValueError) as e:
         if cyclic or isolated or bad_ref:
             return None
@@ -90,18 +93,18 @@ def check_graph(n, edges, extra_parent=None):
         if list(dag.sorted_ancestors[v]) != sorted(anc, key=pos.get):
             return f"sorted_ancestors[{v}] = {dag.sorted_ancestors[v]} expected {sorted(anc, key=pos.get)}"
     # determinism: another insertion order of the same definitions gives the same order
-    dag2 = VariablesDAG.from_dict(_specs(n, edges, order=list(reversed(range(n)))))
+    dag2 = VariablesDAG.from_dict(_specs(n, edges, order=list(reversed(range(n))), const_roots=const_roots))
     if list(dag2.sorted_variables_names) != order:
         return f"order depends on the insertion order of the definitions: {order} vs {list(dag2.sorted_variables_names)}"
     return None
 
 
-def _replay(n, edges, extra_parent):
+def _replay(n, edges, extra_parent, const_roots=False):
     return f"""
 sys.path.insert(0, '/verif')
 from harness.c15 import check_graph
-r = check_graph({n}, {set(edges)!r}, {extra_parent!r})
-print('graph on {n} nodes, edges (i -> j means j depends on i):', {sorted(edges)!r}, 'extra parent:', {extra_parent!r}); print(r)
+r = check_graph({n}, {set(edges)!r}, {extra_parent!r}, {const_roots!r})
+print('graph on {n} nodes, edges (i -> j means j depends on i):', {sorted(edges)!r}, 'extra parent:', {extra_parent!r}, 'definitions without dependencies are constant linked variables:', {const_roots!r}); print(r)
 sys.exit(1 if r else 0)
 """
 
@@ -116,19 +119,19 @@ def enum_task(n, part, parts):
         total = 1 << len(pairs)
         for mask in range(part, total, parts):
             edges = {p for k, p in enumerate(pairs) if mask >> k & 1}
-            variants = [None]
+            variants = [(None, False), (None, True)]
             if mask % 97 == part % 97 or n <= 3:
-                variants += [(0, NAMES[0]), (n - 1, "zz")]  # self reference, unknown variable
-            for extra in variants:
+                variants += [((0, NAMES[0]), False), ((n - 1, "zz"), False)]  # self reference, unknown variable
+            for extra, const_roots in variants:
                 rec.obligations += 1
                 rec.paths += 1
-                err = check_graph(n, edges, extra)
+                err = check_graph(n, edges, extra, const_roots)
                 if err is None:
                     rec.discharged += 1
                     if rec.paths in (5, 500):
                         rec.sample({"n": n, "edges": sorted(edges), "extra_parent": extra, "verdict": "agrees with the closure specification"})
                 elif len(rec.violations) < 3:
-                    rec.violation_from_script(f"graph#{mask}", "C15:" + err.split(":")[0][:40], _replay(n, edges, extra), what=err)
+                    rec.violation_from_script(f"graph#{mask}{'c' if const_roots else ''}", "C15:" + err.split(":")[0][:40], _replay(n, edges, extra, const_roots), what=err)
             if len(rec.violations) >= 3:
                 break
         return rec.result()
